@@ -653,4 +653,75 @@ theorem redeliver_ge (h : UInt64) : ∀ (es : List Ev) (p : Pool) (t n : Nat),
                 (safe_step p wf e.hash h t hc hs) hq
               omega
 
+/-! ### full onPacket -/
+
+theorem onPacketFull_cases (p : Pool) (e : Ev) :
+    ((onPacketFull p e).1 = p ∧ ((onPacketFull p e).2 = .deliver → e.isOneHop = true)) ∨
+    (e.isOneHop = false ∧ (onPacketFull p e).1 = (put p e.hash).1 ∧
+      ((onPacketFull p e).2 = .deliver ↔ (put p e.hash).2 = true)) := by
+  unfold onPacketFull
+  by_cases h1 : (!e.peerHasProto) = true
+  · left; simp [h1]
+  rw [if_neg h1]
+  by_cases h2 : (e.protoId == 0) = true
+  · left
+    rw [if_pos h2]
+    by_cases h3 : (e.protoVer == 0) = true
+    · rw [if_pos h3]
+      cases ctlOf e.sub <;> simp
+    · rw [if_neg h3]; simp
+  · rw [if_neg h2]; exact onPacket_cases p e
+
+/-- generic node-level counting for any receive function with the `cases` property -/
+def redeliverG (f : Pool → Ev → Pool × Outcome) (p : Pool) (h : UInt64) : List Ev → Option Nat
+  | [] => none
+  | e :: es =>
+    if (f p e).2 = .deliver ∧ e.isOneHop = false then
+      if e.hash = h then some 0 else (redeliverG f (f p e).1 h es).map (· + 1)
+    else redeliverG f (f p e).1 h es
+
+theorem redeliverG_ge (f : Pool → Ev → Pool × Outcome)
+    (hf : ∀ p e, ((f p e).1 = p ∧ ((f p e).2 = .deliver → e.isOneHop = true)) ∨
+      (e.isOneHop = false ∧ (f p e).1 = (put p e.hash).1 ∧
+        ((f p e).2 = .deliver ↔ (put p e.hash).2 = true)))
+    (h : UInt64) : ∀ (es : List Ev) (p : Pool) (t n : Nat),
+    WF p → Safe p h t → redeliverG f p h es = some n → t ≤ n
+  | [], _, _, _, _, _, hr => by simp [redeliverG] at hr
+  | e :: es, p, t, n, wf, hs, hr => by
+    unfold redeliverG at hr
+    rcases hf p e with ⟨hp, hd⟩ | ⟨hoh, hp, hd⟩
+    · have hno : ¬ ((f p e).2 = .deliver ∧ e.isOneHop = false) := by
+        intro ⟨a, b⟩; rw [hd a] at b; cases b
+      rw [if_neg hno, hp] at hr
+      exact redeliverG_ge f hf h es p t n wf hs hr
+    · rw [hp] at hr
+      cases hc : contains p e.hash with
+      | true =>
+        have hfl : (put p e.hash).2 = false := by rw [put_rejected p e.hash hc]
+        have hno : ¬ ((f p e).2 = .deliver ∧ e.isOneHop = false) := by
+          intro ⟨a, _⟩; rw [hd, hfl] at a; cases a
+        rw [if_neg hno, put_rejected p e.hash hc] at hr
+        exact redeliverG_ge f hf h es p t n wf hs hr
+      | false =>
+        have hfl : (put p e.hash).2 = true := put_accepted_flag p e.hash hc
+        rw [if_pos ⟨hd.mpr hfl, hoh⟩] at hr
+        by_cases hx : e.hash = h
+        · cases t with
+          | zero => omega
+          | succ t =>
+            have := safe_contains p wf h t hs
+            rw [← hx, hc] at this; cases this
+        · rw [if_neg hx] at hr
+          cases hq : redeliverG f (put p e.hash).1 h es with
+          | none => rw [hq] at hr; simp at hr
+          | some n' =>
+            rw [hq] at hr
+            simp at hr
+            cases t with
+            | zero => omega
+            | succ t =>
+              have := redeliverG_ge f hf h es (put p e.hash).1 t n' (wf_put p wf e.hash)
+                (safe_step p wf e.hash h t hc hs) hq
+              omega
+
 end Goloop.C33.Proofs
